@@ -75,6 +75,11 @@ CHECKS = {
    text="Every evaluation of the C14/C06 vectors (well-formed messages, field-boundary corruptions incl. inconsistent length fields, every truncation) runs under recover() with the allocation counter sampled around it, in child processes with a 3 GiB address-space limit; TLC judges: never a panic (A1), never more than 512 KiB allocated by one evaluation (A2); a child killed by the runtime (out of memory) is attributed to the vector it announced.",
    note="grammar-derived boundary inputs, not all byte strings; handlers are covered by their own checks (C12, C16); QUIC not covered",
    technique="TLA+ robustness contract over TLC-enumerated boundary vectors evaluated on the real matchers; trace validation"),
+
+ "C07": dict(level="exploration", design="5 C07",
+   text="TLC enumerates client TLS configurations x sni/alpn matcher configurations (L4TLS); for each a real crypto/tls client produces the ClientHello, the bytes are shown to the real matcher (provisioned from JSON), to the matcher's own parser (in-package accessor) and to a crypto/tls server (GetConfigForClient); TLC judges: server name, ALPN, supported versions, cipher suites, curves equal the server's view (T1-T5), the verdict equals the decision function applied to the server's view (T6), the placeholders equal the hello (T7). Record framing (non-handshake records never match, every proper prefix of a hello stays undecided) is judged on the tls vectors of L4Wire at every prefix.",
+   note="field-extraction ground truth is crypto/tls; no byte-level mutations beyond truncation and foreign record types",
+   technique="TLA+ case space and sni/alpn decision function; TLC-enumerated cases run through a real TLS client, the real matcher and a real TLS server; trace validation"),
 }
 NA = {
 }
